@@ -293,8 +293,16 @@ def run(ctx):
             # dlsym on the library handle and the requested name
             ds = order[1][2]
             a = [fmt(ir.unwrap(z)) for z in ds.get("args", [])]
+            # an explaining variable for the raw handle: its single initialiser stands for it
+            if a and re.fullmatch(r"\w+", a[0]):
+                inits = [v.get("init") for _, _, e3 in f.roots() if e3["expr"].get("k") == "decl" for v in e3["expr"]["vars"] if v["name"] == a[0] and v.get("init") is not None]
+                if len(inits) == 1:
+                    a[0] = fmt(ir.unwrap(ir.strip_deep(inits[0])))
             ctx.check(a == ["%s.get()" % pn, "%s.c_str()" % f.params[1]["name"]] or a == ["this->library.get()", "%s.c_str()" % f.params[1]["name"]] or a == ["library.get()", "%s.c_str()" % f.params[1]["name"]],
                       "R19.5", f, "looks-up-name-in-library:" + tag, "dlsym is called with %s" % a, f)
+    ctx.rule("R19.7", "nothing in the dl / env wrappers reads a local or parameter after handing it to std::move (a moved-from shared_ptr is null: dlsym(nullptr, name) searches the global scope)")
+    from .common import rule_no_use_after_move
+    rule_no_use_after_move(ctx, "R19.7", lambda g: "/nitro/dl/" in g.file or "/env/" in g.file, "a moved-from handle is null", minimum=5)
     loads = [f for f in prog.fns.values() if f.has_cfg and f.name == "load" and f.cls == "nitro::dl::dl"]
     ctx.need("R19.4", "dl::load bodies", len(loads), 1)
     for f in loads:
